@@ -416,9 +416,9 @@ def check_h3(ctx, tu, info):
                     and root_var_id(path(f, f.nodes[ind[0]]['calleeExpr'])) == f.params[0]['id']
             ctx.ob('C14.H3', f, 'queued items are dispatched only through their own stored dispatcher, with themselves as argument', ok)
         if f.skey in ('HeterEventQueueBase::process', 'HeterEventQueueBase::processOne'):
-            calls = [n for n in f.calls() if (f.callee_key(n) or '') == 'HeterEventQueueBase::doDispatchQueuedEvent']
-            gets = [n for n in f.calls() if (f.callee(n) or {}).get('name') == 'get' and short((f.callee(n) or {}).get('cls', '')) == 'BufferedUnion']
-            ok = len(calls) == 1 and all('QueuedItemBase' in tu.tstr((f.callee(n) or {}).get('ret')) for n in gets) and len(gets) == 1
+            calls = f.deep_calls(lambda g, n: (g.callee_key(n) or '') == 'HeterEventQueueBase::doDispatchQueuedEvent')
+            gets = f.deep_calls(lambda g, n: (g.callee(n) or {}).get('name') == 'get' and short((g.callee(n) or {}).get('cls', '')) == 'BufferedUnion')
+            ok = len(calls) == 1 and all('QueuedItemBase' in tu.tstr((g.callee(n) or {}).get('ret')) for (_t, g, n) in gets) and len(gets) == 1
             ctx.ob('C14.H3', f, '%s dispatches each slot through the untyped base view and the stored dispatcher' % f.name, ok)
 
 
